@@ -137,6 +137,7 @@ func checkC14(seed uint64, replayDir, corpusDir string) (map[string]any, int) {
 		{"preprocess", 6000, func(g *gen, id string) *UnitCase { return g.preprocessUnit(id) }},
 		{"clause", 15000, func(g *gen, id string) *UnitCase { return g.clauseUnit(id) }},
 		{"accessor", 15000, func(g *gen, id string) *UnitCase { return g.accessorUnit(id) }},
+		{"keyaccessor", 15000, func(g *gen, id string) *UnitCase { return g.keyAccessorUnit(id) }},
 	}, replayDir, ut)
 	nv := reportUnitDisagreements("C14", append(t.dis, ut.dis...), replayDir)
 	return t.frag("each configuration in four construction forms (hand-built plain, hand-built + Preprocess*, JSON-decoded, ldbuilders): full observable behaviour compared across forms on the real code and with the model for each; Preprocess* output dumps and preprocessed-vs-plain clause matching compared with the model; non-trivial = distinct configurations with rules, targets or segments", ut), nv
